@@ -36,7 +36,7 @@ func (s *sim) aliveMasters() []string {
 // TestVerifC09: maintenance freezes automation; leaving re-learns the real master.
 func TestVerifC09(t *testing.T) {
 	stt := vs.NewStats(t, "C09")
-	stt.Rule = "semi-sync cluster of 3 HA hosts converged by the real daemons; the operator files a maintenance request (full or light; semi-sync disabled on entry or not), racing with a switch request or a crash; then 8-40 actions from {loop body of a drawn process, full round, mysync kill + restart, ZooKeeper down/up, ZooKeeper cut of one host, mysqld crash/start, operator moves the master by hand / creates a second master / stops a replica's threads, operator files switch --to or a forced failover, client write, time jump}, then should_leave and rounds until the request is gone; oracles: FULL mode, from the moment the request carries mysync_paused until should_leave is set: no mutating statement from any mysync process reaches any server, no mysync client writes master or active_nodes; LIGHT mode while acknowledged: no failover request is created by mysync, no pending failover request (also operator-forced) is executed (no promotion), and a planned switchover on a healthy cluster still completes; LEAVE: the request is deleted by mysync only when exactly one server is an alive master in ground truth, the recorded master is that server and the active list is non-empty; with several masters the emergency file appears and the request stays; non-trivial = the acknowledged window contained a restart, an outage, a crash or a manual topology change"
+	stt.Rule = "semi-sync cluster of 3 HA hosts converged by the real daemons; the operator files a maintenance request (full or light; semi-sync disabled on entry or not), racing with a switch request or a crash; then 8-40 actions from {loop body of a drawn process, full round, mysync kill + restart, ZooKeeper down/up, ZooKeeper cut of one host, mysqld crash/start, operator moves the master by hand / creates a second master / stops a replica's threads, operator files switch --to or a forced failover, client write, time jump}, then should_leave and rounds until the request is gone; oracles: FULL mode, from the moment the request carries mysync_paused until should_leave is set: no mutating statement from any mysync process reaches any server, no mysync client writes master or active_nodes; LIGHT mode while acknowledged: no failover request is created by mysync, no pending failover request (also operator-forced) is executed (no promotion), and a planned switchover on a healthy cluster still completes; LEAVE: the request is deleted by mysync only when exactly one server is an alive master in ground truth, the recorded master is that server and the active list is non-empty and names no server that is down at that moment; with several masters the emergency file appears and the request stays; non-trivial = the acknowledged window contained a restart, an outage, a crash or a manual topology change"
 	stt.Assumptions = simAssumptions
 	stt.Check(t, vs.CheckOpts{Bubble: true}, func(c *vs.Case) {
 		ha := []string{"h1", "h2", "h3"}
@@ -342,6 +342,17 @@ func TestVerifC09(t *testing.T) {
 					if a := s.activeNodes(); len(a) == 0 {
 						c.Violation("c09-left-with-empty-active-list", "%s left maintenance with an empty active list", p.id)
 					}
+					// "rebuilt": made from what is there now, not carried over - a server that is down at
+					// this moment cannot be a member (the keep-while-failing rule needs an old list)
+					s.w.Lock()
+					for _, a := range s.activeNodes() {
+						if h := s.w.Hosts[a]; a != s.masterKey() && (h == nil || !h.Up) {
+							s.w.Unlock()
+							s.dumpTrace(s.traceFrom)
+							c.Violation("c09-left-with-dead-member-in-the-rebuilt-list", "%s left maintenance with active list %v although %s is down\n%s", p.id, s.activeNodes(), a, s.describe())
+						}
+					}
+					s.w.Unlock()
 					break
 				}
 				if len(masters) > 1 && was == stateMaintenance && sawAll && !emerge0 && !s.hostFileExists(p.host, "emerge") && len(s.panics) == 0 {
